@@ -463,6 +463,9 @@ func main() {
 			maxLit = 31
 		}
 		p := basmgen.Generate(rng, i%5 != 0, maxLit)
+		if i%6 == 4 {
+			p = basmgen.GenerateWide(rng, i%5 != 0, maxLit)
+		}
 		if i%6 == 2 {
 			// CPs declared with one shared code section and their own data sections
 			p = basmgen.GenerateShared(rng, maxLit)
